@@ -9,6 +9,7 @@ from fractions import Fraction
 import z3
 
 from . import llir
+from .llir import PtrT
 from .domains import RealDom, FPDom, ConcDom, Unsupported, Bits, q, fpval, FP64, RNE, _libm
 from .exec import Ptr, NULL, UNDEF, Undef, ThrowSignal, PathEnd, is_z3, mask, to_signed
 
@@ -315,6 +316,34 @@ def mk_libm(name):
 
 def cxa_allocate_exception(ex, st, args, I):
     n = args[0]
+    if getattr(ex, 'fast_throw', False) and I is not None and I.get('res') is not None:
+        # the decision to throw is taken; what follows up to __cxa_throw only builds the message.
+        # Find the __cxa_throw that consumes this allocation and raise its type right away.
+        fr = st.frames[-1]
+        res = I['res']
+        aliases = {res}
+        tinfo = None
+        for blk in fr.fn.blocks.values():
+            for J in blk:
+                if J['op'] == 'bitcast' and J['a'] == ('local', res):
+                    aliases.add(J['res'])
+        site = None
+        for lab, blk in fr.fn.blocks.items():
+            for k, J in enumerate(blk):
+                if J['op'] in ('call', 'invoke') and J['callee'] == ('global', '__cxa_throw'):
+                    a0 = J['args'][0][1]
+                    if a0[0] == 'local' and a0[1] in aliases:
+                        tv = J['args'][1][1]
+                        nm = ex._tinfo_ref(tv)
+                        if nm:
+                            tinfo = nm
+                            site = (lab, k)
+        if tinfo is not None:
+            st.event('fast-throw', tinfo=tinfo)
+            # continue unwinding from the throw site (its invoke may have a handler in this function)
+            fr.block, fr.idx = site
+            st.data['fast_throw_depth'] = len(st.frames)
+            raise ThrowSignal(tinfo, NULL)
     if not isinstance(n, int):
         raise Unsupported('symbolic exception size')
     r = ex.new_region(st, n, 'heap', 'exception')
@@ -364,6 +393,8 @@ def op_new(ex, st, args, I):
 
 def op_delete(ex, st, args, I):
     p = args[0]
+    if isinstance(p, Undef):
+        return None
     if isinstance(p, Ptr) and p.rid != 0:
         r = st.mem.get(p.rid)
         if r is not None:
@@ -555,6 +586,28 @@ def fabs_stub(ex, st, args, I):
     return ex.fabs(st, args[0])
 
 
+def modf_stub(ex, st, args, I):
+    x, ip = args
+    d = ex.dom
+    if isinstance(x, float) and isinstance(d, (ConcDom, FPDom)):
+        fr, it = math.modf(x)
+        ex.store(st, ip, llir.DOUBLE, it)
+        return fr
+    if isinstance(d, FPDom):
+        x = d.lift(x)
+        it = z3.fpRoundToIntegral(z3.RTZ(), x)
+        ex.store(st, ip, llir.DOUBLE, it)
+        # modf(+-inf) = +-0 ; NaN -> NaN
+        return z3.If(z3.fpIsInf(x), z3.If(z3.fpIsNegative(x), fpval(-0.0), fpval(0.0)), z3.fpSub(RNE, x, it))
+    if isinstance(x, float):
+        ex.store(st, ip, llir.DOUBLE, x)
+        return math.nan if x != x else Fraction(0)
+    it = libm_call(ex, st, 'trunc', [x])
+    ex.store(st, ip, llir.DOUBLE, it)
+    return d.bin(ex, st, 'fsub', x, it)
+
+
+BASE_STUBS['modf'] = modf_stub
 BASE_STUBS['fabs'] = fabs_stub
 BASE_STUBS['fmin'] = _minmax('min')
 BASE_STUBS['fmax'] = _minmax('max')
@@ -632,3 +685,140 @@ def all_base_stubs():
     s = dict(BASE_STUBS)
     s.update(OSTREAM_STUBS)
     return s
+
+
+# ---------------------------------------------------------------------------- std::string model
+# libstdc++ (cxx11 ABI) layout: {char* p; size_t len; union {char buf[16]; size_t cap;}}
+
+_S = '_ZNSt7__cxx1112basic_stringIcSt11char_traitsIcESaIcEE'
+_SK = '_ZNKSt7__cxx1112basic_stringIcSt11char_traitsIcESaIcEE'
+
+
+def make_string(ex, st, text, region=None, off=0):
+    """lay out a std::string holding `text` (bytes); returns Ptr to the object"""
+    if isinstance(text, str):
+        text = text.encode()
+    if region is None:
+        region = ex.new_region(st, 32, 'heap', 'string')
+        off = 0
+    if len(text) < 16:
+        data = Ptr(region.rid, off + 16)
+        for i, b in enumerate(text + b'\0'):
+            region.cells[off + 16 + i] = (b, 1)
+    else:
+        buf = ex.new_region(st, len(text) + 1, 'heap', 'chars')
+        for i, b in enumerate(text + b'\0'):
+            buf.cells[i] = (b, 1)
+        data = Ptr(buf.rid, 0)
+        region.cells[off + 16] = (len(text), 8)
+    region.cells[off] = (data, 8)
+    region.cells[off + 8] = (len(text), 8)
+    return Ptr(region.rid, off)
+
+
+def _s_data(ex, st, args, I):
+    return ex.load(st, args[0], PtrT(llir.I8))
+
+
+def _s_len(ex, st, args, I):
+    return ex.load(st, Ptr(args[0].rid, args[0].off + 8), llir.I64)
+
+
+def _s_empty(ex, st, args, I):
+    n = _s_len(ex, st, args, I)
+    if isinstance(n, int):
+        return int(n == 0)
+    return n == 0
+
+
+def _s_end(ex, st, args, I):
+    p = _s_data(ex, st, args, I)
+    n = _s_len(ex, st, args, I)
+    return ex.gep(st, p, llir.I8, [(llir.I64, n)])
+
+
+def _s_index(ex, st, args, I):
+    p = _s_data(ex, st, args, I)
+    return ex.gep(st, p, llir.I8, [(llir.I64, args[1])])
+
+
+def _s_compare_cstr(ex, st, args, I):
+    p = _s_data(ex, st, args, I)
+    n = _s_len(ex, st, args, I)
+    a = ex.read_cstr(st, p)
+    b = ex.read_cstr(st, args[1])
+    if a is None or b is None or not isinstance(n, int):
+        raise Unsupported('string compare on symbolic text')
+    a = a[:n]
+    return 0 if a == b else (1 if a > b else mask(32))
+
+
+def _s_ctor_fill(ex, st, args, I):
+    this, n, ch = args[0], args[1], args[2]
+    if not isinstance(n, int) or not isinstance(ch, int):
+        raise Unsupported('string(n, c) with symbolic arguments')
+    r = ex.region(st, this)
+    make_string(ex, st, bytes([ch & 255]) * n, r, this.off)
+    return None
+
+
+def _s_ctor_cstr(ex, st, args, I):
+    this = args[0]
+    t = ex.read_cstr(st, args[1])
+    if t is None:
+        raise Unsupported('string(const char*) on symbolic text')
+    make_string(ex, st, t, ex.region(st, this), this.off)
+    return None
+
+
+def _s_ctor_copy(ex, st, args, I):
+    this, other = args[0], args[1]
+    p = ex.load(st, other, PtrT(llir.I8))
+    n = ex.load(st, Ptr(other.rid, other.off + 8), llir.I64)
+    t = ex.read_cstr(st, p)
+    if t is None or not isinstance(n, int):
+        raise Unsupported('string copy of symbolic text')
+    make_string(ex, st, t[:n], ex.region(st, this), this.off)
+    return None
+
+
+def _s_dtor(ex, st, args, I):
+    return None
+
+
+STRING_MODEL_STUBS = {
+    _SK + '5c_strEv': _s_data, _SK + '4dataEv': _s_data, _SK + '5beginEv': _s_data, _S + '5beginEv': _s_data,
+    _SK + '3endEv': _s_end, _S + '3endEv': _s_end,
+    _SK + '6lengthEv': _s_len, _SK + '4sizeEv': _s_len, _SK + '5emptyEv': _s_empty,
+    _SK + 'ixEm': _s_index, _S + 'ixEm': _s_index,
+    _SK + '7compareEPKc': _s_compare_cstr,
+    _S + 'C2EmcRKS3_': _s_ctor_fill, _S + 'C1EmcRKS3_': _s_ctor_fill,
+    _S + 'C2EPKcRKS3_': _s_ctor_cstr, _S + 'C1EPKcRKS3_': _s_ctor_cstr,
+    _S + 'C2ERKS4_': _s_ctor_copy, _S + 'C1ERKS4_': _s_ctor_copy,
+    _S + 'D2Ev': _s_dtor, _S + 'D1Ev': _s_dtor,
+    '_ZNSaIcEC1Ev': _nop, '_ZNSaIcEC2Ev': _nop, '_ZNSaIcED1Ev': _nop, '_ZNSaIcED2Ev': _nop,
+}
+
+
+def _toupper(ex, st, args, I):
+    c = args[0]
+    if not isinstance(c, int):
+        raise Unsupported('toupper on symbolic char')
+    c &= 0xffffffff
+    if 97 <= c <= 122:
+        return c - 32
+    return c
+
+
+def _tolower(ex, st, args, I):
+    c = args[0]
+    if not isinstance(c, int):
+        raise Unsupported('tolower on symbolic char')
+    c &= 0xffffffff
+    if 65 <= c <= 90:
+        return c + 32
+    return c
+
+
+BASE_STUBS['toupper'] = _toupper
+BASE_STUBS['tolower'] = _tolower
